@@ -11,9 +11,13 @@ Inductive which := WSelf | WNext | WParent | WLocal.
 Inductive item :=
 | IText (marker : N)
 | IBlock (name : N)                 (* a named block tag at this position; its content is the member of that name *)
-| ICall (w : which) (name : N).     (* dollar-brace w.name() ; name 0 is body *)
+| ICall (w : which) (name : N)      (* dollar-brace w.name() ; name 0 is body *)
+| IAttr (w : which) (name : N).     (* dollar-brace w.attr.name : a module-level attribute through _NSAttr *)
 
-Record tmpl := { members : list (N * list item) }.     (* defs, named blocks and body (name 0) *)
+Record tmpl := {
+  members : list (N * list item);     (* defs, named blocks and body (name 0) *)
+  attrs : list N                      (* names bound at module level, whatever their value *)
+}.
 Definition chain := list tmpl.
 
 Definition has_def (t : tmpl) (x : N) : bool := existsb (fun m => fst m =? x) (members t).
@@ -46,7 +50,18 @@ Definition block_renders (c : chain) (k : nat) (b : N) : bool :=
   | Some p => match lookup_from c p b with Some _ => false | None => true end
   end.
 
-Inductive event := EText (marker : N) | EEnter (template : nat) (name : N) | EError.
+(* _NSAttr.__getattr__: the module of the namespace's template, else of the namespace it inherits *)
+Fixpoint attr_from (c : chain) (i : nat) (x : N) : option nat :=
+  match c with
+  | [] => None
+  | t :: r =>
+      match i with
+      | S i' => option_map S (attr_from r i' x)
+      | O => if memN x (attrs t) then Some O else option_map S (attr_from r O x)
+      end
+  end.
+
+Inductive event := EText (marker : N) | EEnter (template : nat) (name : N) | EAttr (template : nat) (name : N) | EError.
 
 Fixpoint run (fuel : nat) (c : chain) (k : nat) (items : list item) : list event * bool :=   (* events, ok *)
   match fuel with
@@ -76,6 +91,11 @@ Fixpoint run (fuel : nat) (c : chain) (k : nat) (items : list item) : list event
             | IText m => ([EText m], true)
             | IBlock b => if block_renders c k b then call (Some O) b else ([], true)
             | ICall w x => call (resolve c k w) x
+            | IAttr w x =>
+                match resolve c k w with
+                | None => ([EError], false)
+                | Some i => match attr_from c i x with Some j => ([EAttr j x], true) | None => ([EError], false) end
+                end
             end in
           if ok1 then let (ev2, ok2) := run f c k rest in (ev1 ++ ev2, ok2) else (ev1, false)
       end
